@@ -22,7 +22,8 @@ TInit == Init /\ tid \in 1..Len(Traces) /\ pos = 1 /\ verdict = "none"
 QBad(kind, o, x) ==
     CASE kind = "shape" -> IF o.rx # x.rx THEN "reactions" ELSE IF o.ss # x.ss THEN "substances" ELSE ""
       [] kind = "graph" ->
-           IF o.split # x.split THEN "split"
+           IF o.fault # "" THEN "fault:" \o o.fault
+           ELSE IF o.split # x.split THEN "split"
            ELSE IF o.cat # x.cat THEN "categories"
            ELSE IF x.eqdef /\ o.eq # x.eq THEN "equilibria"
            ELSE IF ~x.eqdef /\ ~(/\ IsInj(o.eq) /\ ToSet(o.eq) \subseteq ToSet(x.eq)
